@@ -531,7 +531,7 @@ pub fn run(ctx: &mut Ctx) {
         serde_jobs::<SaftVRQMieParameters>("saftvrqmie", f, |p| ResidualModel::SaftVRQMie(SaftVRQMie::new(Arc::new(p))), 40.0, 1, &mut jobs);
     }
     serde_jobs::<ElectrolytePcSaftParameters>("epcsaft", "epcsaft/held2014_w_permittivity_added.json", |p| ResidualModel::ElectrolytePcSaft(ElectrolytePcSaft::new(Arc::new(p))), 300.0, 1, &mut jobs);
-    ctx.rule = format!("JSON construction: every ordered subset of substances (size <= 3-4{}) of gross2002, gross2005_fit, gross2005_literature, lafitte2013, aasen2019 (+binary), held2014 (+binary) x every identifier kind the records carry uniquely x file order {{original, reversed, rotated}} x binary file {{original, every record's id1/id2 swapped, reversed, none}}; duplicates / missing names rejected; query split across two files in every way. Group contribution: every chemical record of gc_substances.json vs a reference re-implementation of the combining rules (m, sigma, epsilon, M, mu, q, site counts), every order of its segment list with relabelled bonds (<= {} segments) for the homo- and heterosegmented model, count-weighted k_ij averaging of rehner2023 for substance pairs. Serde: every{} record of every pure file serialised, re-read and compared bit-for-bit in behaviour on 3 states. jobs = {}", if tier == Tier::Quick { ", every 3rd-11th subset of the larger files" } else { "" }, tier.pick(5, 8), if tier == Tier::Quick { " 13th PC-SAFT" } else { "" }, jobs.len());
+    ctx.rule = format!("group contribution: from_segments succeeds exactly when the table has every group and at most one polar/associating group occurs (sauer2014 and rehner2023 homo tables), homo- and heterosegmented from_json_segments keep the query order; JSON construction: every ordered subset of substances (size <= 3-4{}) of gross2002, gross2005_fit, gross2005_literature, lafitte2013, aasen2019 (+binary), held2014 (+binary) x every identifier kind the records carry uniquely x file order {{original, reversed, rotated}} x binary file {{original, every record's id1/id2 swapped, reversed, none}}; duplicates / missing names rejected; query split across two files in every way. Group contribution: every chemical record of gc_substances.json vs a reference re-implementation of the combining rules (m, sigma, epsilon, M, mu, q, site counts), every order of its segment list with relabelled bonds (<= {} segments) for the homo- and heterosegmented model, count-weighted k_ij averaging of rehner2023 for substance pairs. Serde: every{} record of every pure file serialised, re-read and compared bit-for-bit in behaviour on 3 states. jobs = {}", if tier == Tier::Quick { ", every 3rd-11th subset of the larger files" } else { "" }, tier.pick(5, 8), if tier == Tier::Quick { " 13th PC-SAFT" } else { "" }, jobs.len());
     ctx.run(&jobs, |j| j.0.clone(), |j, rec| (j.1)(rec));
     ctx.assume("hash-map iteration order inside feos is randomised per process: oracles are order-free");
 }
